@@ -491,6 +491,7 @@ func translateTopics(p *pkgInfo, topicsIn []topic, withMisc bool, prefix string,
 			}
 			c.phase2, c.phase3, c.phase4, c.phase5 = t.part2, part3Topics[t.name], part4Topics[t.name], part5Topics[t.name]
 			c.ptrNonNil = ptrNonNilTopics[t.name]
+			c.nilable = nilableTopics[t.name] // code_nil.go
 			c.strictSliceParams = promoted3[t.name]
 			c.declOrder = declOrderTopics[t.name]
 			for _, k := range t.fns {
@@ -499,6 +500,7 @@ func translateTopics(p *pkgInfo, topicsIn []topic, withMisc bool, prefix string,
 			c.strictSliceParams = false
 			c.phase2, c.phase3, c.phase4, c.phase5 = false, false, false, false
 			c.ptrNonNil = false
+			c.nilable = false
 		}
 		res.refused, res.msg = guarded(run)
 		if res.refused {
